@@ -472,7 +472,7 @@ func wsSites(info *types.Info, body ast.Node) []string {
 
 func c11(c *core.Check) {
 	p := c.Prog
-	c.Explain = "Thin structural clauses of line breaking: every boolean that classifies a white-space value uses one of the CSS Text classes (collapse spaces, collapse newlines, wrap, no-wrap), site by site as confirmed by reading; the white-space and text-align vocabularies accepted by the validators are all handled by the text style conversion and by layout.textAlign. Widths and break positions are not decided."
+	c.Explain = "Thin structural clauses of line breaking: every boolean that classifies a white-space value uses one of the CSS Text classes (collapse spaces, collapse newlines, wrap, no-wrap), site by site as confirmed by reading; the white-space and text-align vocabularies accepted by the validators are all handled by the text style conversion and by layout.textAlign. Widths and break positions are not decided. Also decided: (R6) layout.textAlign folded for all alignment combinations; (R7) no integer comparison of the layout and text code counts a resume offset twice; (R8) the character-wrapping permission of both text engines, by truth table."
 	r1 := c.Rule("R1", "each test of a white-space value against keywords uses exactly one CSS Text class: collapse-spaces {normal,nowrap,pre-line}, collapse-newlines {normal,nowrap}, wrap {normal,pre-line,pre-wrap}, no-wrap {nowrap,pre}; the sites are those confirmed by reading (per function)", 9)
 	classes := map[string]string{"normal,nowrap,pre-line": "collapse-spaces", "normal,nowrap": "collapse-newlines", "normal,pre-line,pre-wrap": "wrap", "nowrap,pre": "no-wrap"}
 	// frozen per-function expectation (function → classes of its sites, sorted)
@@ -614,7 +614,7 @@ func returnStringSets(p *core.Prog, fn *ssa.Function) []string {
 
 func c12(c *core.Check) {
 	p := c.Prog
-	c.Explain = "Thin structural clauses of page breaking: the forced and avoid break vocabularies tested by layout are exactly the CSS Fragmentation sets (with column variants only inside columns), every computed break value the validators can produce is classified, `always` computes to `page`, the between-siblings resolution prefers forced over avoid over auto, and the :nth() page arithmetic divides only by a non-zero step. Page geometry, break positions, orphans/widows and blank pages are not decided."
+	c.Explain = "Thin structural clauses of page breaking: the forced and avoid break vocabularies tested by layout are exactly the CSS Fragmentation sets (with column variants only inside columns), every computed break value the validators can produce is classified, `always` computes to `page`, the between-siblings resolution prefers forced over avoid over auto, and the :nth() page arithmetic divides only by a non-zero step. Page geometry, break positions, orphans/widows and blank pages are not decided. Also decided: (R5) pageWidthOrHeight folded for all auto combinations; (R6) the orphans/widows tests as normalised linear inequalities."
 	r1 := c.Rule("R1", "forcePageBreak tests {page,left,right,recto,verso} (+column in columns); avoidPageBreak tests {avoid,avoid-page} (+avoid-column in columns); blockLevelPageBreak's side set is {left,right,recto,verso} and its choice table lets page/column override everything and avoid* override auto; every break-before/after/inside value the validators emit (after always→page) is forced, avoid or auto", 25)
 	fpb := p.Fn("html/layout", "forcePageBreak")
 	apb := p.Fn("html/layout", "avoidPageBreak")
